@@ -265,7 +265,7 @@ def Chan.hasState (c : Chan) (v : Nat) : Bool :=
 
 /-- `close_channel` -/
 def Chan.close (c : Chan) (v : Nat) : Chan :=
-  if c.hasState v then { c with state := .closed } else c
+  if c.state = .id v false then { c with state := .closed } else c
 
 /-! ### sender side (`sender.rs`) -/
 
